@@ -279,10 +279,24 @@ fn gen_sibling_window(rng: &mut Rng, g: &QGen, named: &[&Node]) -> Option<String
     if rng.chance(1, 5) {
         s.push_str(" .");
     }
+    // sometimes an optional / starred element of some kind in front of the (anchored) window: when it
+    // matches nothing its anchor is waived and a trailing anchor moves to the last matched node
+    let mut lead_opt = false;
+    if rng.chance(1, 3) && !g.named_kinds.is_empty() {
+        let k = if rng.chance(1, 2) && off > 0 { kids[off - 1].kind().to_string() } else { rng.pick(&g.named_kinds).clone() };
+        s.push_str(&format!(" ({k}){}", rng.pick(&["?", "*"])));
+        if rng.chance(1, 3) {
+            s.push_str(&g.capture(rng));
+        }
+        lead_opt = true;
+    }
     for i in 0..w {
         let k = &kids[off + i];
         if k.is_missing() || k.is_error() {
             return None;
+        }
+        if i == 0 && lead_opt && rng.chance(3, 4) {
+            s.push_str(" .");
         }
         if i > 0 {
             // mostly anchored, sometimes a plain sibling
@@ -311,6 +325,59 @@ fn gen_sibling_window(rng: &mut Rng, g: &QGen, named: &[&Node]) -> Option<String
     Some(format!("{s}{cap}\n"))
 }
 
+/// Family 3: a parent with several children of one kind; the pattern describes (uncaptured, with
+/// child patterns of its own) one of the LATER ones, so a state that commits to the first child of
+/// that kind fails inside it — the matcher has to keep the choice open (state splitting / fallibility).
+fn gen_late_child(rng: &mut Rng, g: &QGen, named: &[&Node]) -> Option<String> {
+    let mut cands: Vec<(Node, Node)> = Vec::new();
+    for p in named.iter() {
+        if p.is_error() || p.named_child_count() < 2 {
+            continue;
+        }
+        let mut cur = p.walk();
+        let kids: Vec<Node> = p.named_children(&mut cur).collect();
+        for (i, k) in kids.iter().enumerate() {
+            if i > 0 && k.child_count() > 0 && !k.is_error() && kids[..i].iter().any(|e| e.kind_id() == k.kind_id()) {
+                cands.push((**p, *k));
+            }
+        }
+    }
+    if cands.is_empty() {
+        return None;
+    }
+    let (p, k) = *rng.pick(&cands);
+    // the child pattern: kind + patterns of (some of) its children, no captures inside
+    let mut cur = k.walk();
+    let gk: Vec<Node> = k.children(&mut cur).collect();
+    let mut inner = format!("({}", k.kind());
+    let mut n = 0;
+    for c in gk.iter() {
+        if n >= 2 || c.is_missing() || c.is_error() {
+            continue;
+        }
+        if c.is_named() && rng.chance(2, 3) {
+            inner.push_str(&format!(" ({})", c.kind()));
+            n += 1;
+        } else if !c.is_named() && rng.chance(1, 3) {
+            inner.push(' ');
+            inner.push_str(&quote(c.kind()));
+            n += 1;
+        }
+    }
+    inner.push(')');
+    let mut s = format!("({} {inner}", p.kind());
+    if rng.chance(1, 3) {
+        // a further, unspecific sibling after it
+        s.push_str(" (_)");
+        if rng.chance(1, 2) {
+            s.push_str(&g.capture(rng));
+        }
+    }
+    s.push(')');
+    let cap = if rng.chance(2, 3) { g.capture(rng) } else { String::new() };
+    Some(format!("{s}{cap}\n"))
+}
+
 fn gen_query(rng: &mut Rng, g: &mut QGen, tree: &Tree) -> Option<String> {
     let nodes = all_nodes(tree);
     let named: Vec<&Node> = nodes.iter().filter(|n| n.is_named() && !n.is_missing()).collect();
@@ -321,6 +388,11 @@ fn gen_query(rng: &mut Rng, g: &mut QGen, tree: &Tree) -> Option<String> {
     match rng.below(10) {
         0 => {
             if let Some(q) = gen_negated_family(rng, g, &named) {
+                return Some(q);
+            }
+        }
+        3 => {
+            if let Some(q) = gen_late_child(rng, g, &named) {
                 return Some(q);
             }
         }
